@@ -1,10 +1,11 @@
+\* the code as it is now (fix commits 11c4172 and bd40fd9 in /repo)
 SPECIFICATION Spec
 CONSTANTS
   Sizes = {1, 2, 4}
   MaxScript = 5
   Retry = 3
-  Fix = {}
+  Fix = {"exists", "nopeer_fails"}
   Emit = FALSE
-INVARIANTS TypeOK FinalGood
+INVARIANTS TypeOK FinalGood CountedPresent Converges GateSound
 VIEW view
 CHECK_DEADLOCK FALSE
